@@ -14,11 +14,14 @@
    driver uses it as the control that isolates the mutability rule from everything else. *)
 EXTENDS Integers, Sequences, FiniteSets, TLC, Json
 
+(* for_index: for x, v in <dynamic array>;  _blank: the second variable is the placeholder `_`;  _str: the loop
+   ranges over a string -- all of them two-variable for loops (over a fixed-size array the front end has none) *)
 Kinds == {"const_int", "const_struct", "const_arr", "gconst_int", "gconst_struct",
-          "for_index", "catch_err", "ref_param", "ref_param_int", "ref_recv", "ref_local"}
+          "for_index", "for_index_blank", "for_index_str",
+          "catch_err", "ref_param", "ref_param_int", "ref_recv", "ref_local"}
 RootImmutable(k) == k \in Kinds          \* every kind listed is an immutable root (its twin is not)
 
-BaseType(k) == CASE k \in {"const_int", "gconst_int", "for_index", "ref_param_int"} -> "int"
+BaseType(k) == CASE k \in {"const_int", "gconst_int", "for_index", "for_index_blank", "for_index_str", "ref_param_int"} -> "int"
                  [] k \in {"const_struct", "gconst_struct", "ref_param", "ref_recv", "ref_local"} -> "P"
                  [] k = "const_arr" -> "arr"
                  [] k = "catch_err" -> "str"
